@@ -4,38 +4,41 @@ From DL Require Import Base Eval Symbolic Grammar Denote LexPrint Digits.
 
 Definition both_lit (l r:sym) : option (Z*Z) := match l, r with SLit a, SLit b => Some (a, b) | _, _ => None end.
 Definition one_lit (a:sym) : option Z := match a with SLit z => Some z | _ => None end.
-Definition okv (r:res Z) : Prop := exists v, r = Ok v /\ (0 <= v)%Z.
+Definition okv (r:res Z) : Prop := exists v, r = Ok v.
 
-(* the trees the theorem is about: non-negative literals and constants, identifiers, operators in their places *)
+(* the trees the theorem is about: identifiers are identifiers, operators stand in their places, folded constants are defined *)
 Fixpoint sym_ok (s:sym) : Prop :=
   match s with
-  | SLit z => (0 <= z)%Z
+  | SLit z => True
   | SVar x => valid_ident x = true /\ reserved x = false
   | SBin o l r => is_infix o = true /\ match both_lit l r with Some (a, b) => okv (fold_bin o a b) | None => sym_ok l /\ sym_ok r end
   | SIsqrt a => match one_lit a with Some z => (0 <= z)%Z | None => sym_ok a end
   | SFun2 o a b => is_binfun o = true /\ match both_lit a b with Some (x, y) => okv (fold_bin o x y) | None => sym_ok a /\ sym_ok b end
   | SGroup a => sym_ok a
   end.
+(* a constant of either sign as an expression of the grammar *)
+Definition embed_const (z:Z) : expr :=
+  if (z <? 0)%Z then Paren (Bin SUB (Lit "0") (Lit (string_of_Z (- z)))) else Lit (string_of_Z z).
 Definition val (r:res Z) : Z := match r with Ok v => v | Err _ => 0%Z end.
 Fixpoint embed (s:sym) : expr :=
   match s with
-  | SLit z => Lit (string_of_Z z)
+  | SLit z => embed_const z
   | SVar x => Var x
   | SBin o l r =>
       match both_lit l r with
-      | Some (a, b) => Lit (string_of_Z (val (fold_bin o a b)))
+      | Some (a, b) => embed_const (val (fold_bin o a b))
       | None => Bin o (if needs_paren (prec o) l false then Paren (embed l) else embed l)
                       (if needs_paren (prec o) r true then Paren (embed r) else embed r)
       end
   | SIsqrt a => match one_lit a with Some z => Lit (string_of_Z (val (eval_un z))) | None => Fun1 ISQRT (embed a) end
-  | SFun2 o a b => match both_lit a b with Some (x, y) => Lit (string_of_Z (val (fold_bin o x y))) | None => Fun2 o (embed a) (embed b) end
+  | SFun2 o a b => match both_lit a b with Some (x, y) => embed_const (val (fold_bin o x y)) | None => Fun2 o (embed a) (embed b) end
   | SGroup a => Paren (embed a)
   end.
 
 (* equations that hide the nested pattern matching of the printer *)
 Lemma sprint_bin o l r : sprint (SBin o l r) =
   match both_lit l r with
-  | Some (a, b) => do v <- fold_bin o a b; Ok (string_of_Z v)
+  | Some (a, b) => do v <- fold_bin o a b; Ok (const_str v)
   | None => do sl <- sprint l; do sr <- sprint r;
             Ok (cat3 (if needs_paren (prec o) l false then cat3 "(" sl ")" else sl) (op_str o)
                      (if needs_paren (prec o) r true then cat3 "(" sr ")" else sr))
@@ -46,7 +49,7 @@ Lemma sprint_isqrt a : sprint (SIsqrt a) =
 Proof. destruct a; reflexivity. Qed.
 Lemma sprint_fun2 o a b : sprint (SFun2 o a b) =
   match both_lit a b with
-  | Some (x, y) => do v <- fold_bin o x y; Ok (string_of_Z v)
+  | Some (x, y) => do v <- fold_bin o x y; Ok (const_str v)
   | None => do sa <- sprint a; do sb <- sprint b; Ok (String.append (op_str o) (cat3 "(" (cat3 sa "," sb) ")"))
   end.
 Proof. destruct a, b; reflexivity. Qed.
@@ -61,19 +64,30 @@ Lemma op_str_string o : op_str o = op_string o. Proof. destruct o; reflexivity. 
 Definition lvl (s:sym) : nat := match infix_prec s with Some p => p | None => 4 end.
 Lemma lit_ok z : (0 <= z)%Z -> names_ok (Lit (string_of_Z z)) /\ forall sc, den (Lit (string_of_Z z)) sc = Ok z.
 Proof. intros H. destruct (string_of_Z_roundtrip z H) as [A B]. simpl. rewrite B. auto. Qed.
+Lemma const_ok z : print_string (embed_const z) = const_str z /\ names_ok (embed_const z) /\ (forall k, wf k (embed_const z)) /\
+                   forall sc, den (embed_const z) sc = Ok z.
+Proof.
+  unfold embed_const, const_str. destruct (z <? 0)%Z eqn:E.
+  - apply Z.ltb_lt in E. assert (Hn: (0 <= - z)%Z) by lia. destruct (lit_ok (- z) Hn) as [N D].
+    split; [reflexivity|]. split; [simpl; split; [reflexivity|exact N]|]. split.
+    + intros k. simpl. repeat split; auto.
+    + intros sc. pose proof (D sc) as Dz. cbn [den] in Dz |- *. change (lit_value "0") with 0%Z. cbn [bind]. injection Dz as Dz. rewrite Dz.
+      cbn [eval_bin]. f_equal. lia.
+  - apply Z.ltb_ge in E. destruct (lit_ok z E) as [N D]. split; [reflexivity|]. split; [exact N|]. split; [intros k; exact I|exact D].
+Qed.
 
 Theorem embed_correct s : sym_ok s ->
   sprint s = Ok (print_string (embed s)) /\ names_ok (embed s) /\ (forall k, k <= lvl s -> wf k (embed s)) /\
   (forall sc, den (embed s) sc = pyden s sc).
 Proof.
   induction s as [z|x|o l IHl r IHr|a IHa|o a IHa b IHb|a IHa]; intros Hok.
-  - destruct (lit_ok z Hok) as [N D]. simpl. repeat split; auto.
+  - destruct (const_ok z) as (P & N & W & D). cbn [sprint embed pyden]. rewrite P. repeat split; auto.
   - simpl in *. destruct Hok as [H1 H2]. repeat split; auto.
   - (* infix operation *)
     simpl in Hok. destruct Hok as [Hi Hok]. rewrite sprint_bin. cbn [embed pyden].
     destruct (both_lit l r) as [[a b]|] eqn:Eb.
-    + destruct Hok as (v & Hv & Hpos). apply both_lit_some in Eb as [-> ->]. rewrite Hv. cbn [bind val].
-      destruct (lit_ok v Hpos) as [N D]. repeat split; auto.
+    + destruct Hok as (v & Hv). apply both_lit_some in Eb as [-> ->]. rewrite Hv. cbn [bind val].
+      destruct (const_ok v) as (P & N & W & D). rewrite P. repeat split; auto.
       intros sc. rewrite D. simpl. symmetry. apply fold_is_eval. exact Hv.
     + destruct Hok as [Hl Hr]. destruct (IHl Hl) as (Pl & Nl & Wl & Dl). destruct (IHr Hr) as (Pr & Nr & Wr & Dr).
       rewrite Pl, Pr. cbn [bind].
@@ -113,8 +127,8 @@ Proof.
   - (* Min / Max *)
     simpl in Hok. destruct Hok as [Hb Hok]. rewrite sprint_fun2. cbn [embed pyden].
     destruct (both_lit a b) as [[x y]|] eqn:Eb.
-    + destruct Hok as (v & Hv & Hpos). apply both_lit_some in Eb as [-> ->]. rewrite Hv. cbn [bind val].
-      destruct (lit_ok v Hpos) as [N D]. repeat split; auto.
+    + destruct Hok as (v & Hv). apply both_lit_some in Eb as [-> ->]. rewrite Hv. cbn [bind val].
+      destruct (const_ok v) as (P & N & W & D). rewrite P. repeat split; auto.
       intros sc. rewrite D. simpl. symmetry. apply fold_is_eval. exact Hv.
     + destruct Hok as [Ha Hb']. destruct (IHa Ha) as (Pa & Na & Wa & Da). destruct (IHb Hb') as (Pb & Nb & Wb & Db).
       rewrite Pa, Pb. cbn [bind].
